@@ -31,3 +31,69 @@ package oned
 //@   loop 1: invariant totalVariance == absdev(counters, pattern, u, x)
 //@   loop 1: invariant withinVar(counters, pattern, u, maxIndividualVariance, x)
 //@   loop 1: decreases n - x
+
+// ---------------------------------------------------------------- UPC/EAN check digit (C10)
+// dsum(s, i): sum of the digit values at positions i, i-2, i-4, ... of s
+//@ spec func dig(s string, k int) int = int(s[k]) - 48
+//@ spec func dsum(s string, i int) int = i < 0 ? 0 : dsum(s, i - 2) + dig(s, i)
+//@ pred isDigitAt(s string, k int) = 48 <= int(s[k]) && int(s[k]) <= 57
+//@ pred allDigits(s string) = forall k int :: 0 <= k && k < len(s) ==> isDigitAt(s, k)
+// mod10(s): the standard check digit of the digit string s (weights 3,1,3,... from the right)
+//@ spec func mod10(s string) int = (1000 - (3 * dsum(s, len(s) - 1) + dsum(s, len(s) - 2))) % 10
+
+//@ func upceanReader_getStandardUPCEANChecksum(s string) (r int, e error)
+//@   property C10 C03
+//@   requires len(s) <= 32
+//@   ensures allDigits(s) ==> e == nil && r == mod10(s) && 0 <= r && r <= 9
+//@   ensures !allDigits(s) ==> e != nil
+//@   modifies nothing
+//@   loop 0: invariant length == len(s) && -2 <= i && i <= length - 1 && (length - 1 - i) % 2 == 0
+//@   loop 0: invariant sum == dsum(s, length - 1) - dsum(s, i) && 0 <= sum && 2 * sum <= 9 * (length - 1 - i)
+//@   loop 0: invariant forall k int :: i < k && k < length && (length - 1 - k) % 2 == 0 ==> isDigitAt(s, k)
+//@   loop 0: decreases i + 2
+//@   loop 1: invariant length == len(s) && -2 <= i && i <= length - 2 && (length - 2 - i) % 2 == 0
+//@   loop 1: invariant sum == 3 * dsum(s, length - 1) + dsum(s, length - 2) - dsum(s, i) && 0 <= sum && 2 * sum <= 27 * (length + 1) + 9 * (length - 2 - i)
+//@   loop 1: invariant forall k int :: 0 <= k && k < length && (length - 1 - k) % 2 == 0 ==> isDigitAt(s, k)
+//@   loop 1: invariant forall k int :: i < k && k < length && (length - 2 - k) % 2 == 0 ==> isDigitAt(s, k)
+//@   loop 1: decreases i + 2
+
+//@ func upceanReader_checkStandardUPCEANChecksum(s string) (ok bool, e error)
+//@   property C10 C03
+//@   requires len(s) <= 32
+//@   ensures len(s) == 0 ==> !ok && e == nil
+//@   ensures len(s) >= 1 && allDigits(s) ==> e == nil && ok == (dig(s, len(s) - 1) == mod10(substr(s, 0, len(s) - 1)))
+//@   ensures len(s) >= 1 && !allDigits(substr(s, 0, len(s) - 1)) ==> e != nil
+//@   modifies nothing
+
+// ---------------------------------------------------------------- UPC-E zero suppression (C10)
+// xp(u, k): character k (0..10) of the UPC-A number that the UPC-E string u (number system, six digits[, check]) stands for
+//@ spec func xlast(u string) int = int(u[6])
+//@ spec func xp(u string, k int) int = k == 0 ? int(u[0]) : (xlast(u) <= 50 && xlast(u) >= 48 ? (k <= 2 ? int(u[k]) : (k == 3 ? xlast(u) : (k <= 7 ? 48 : int(u[k-5])))) : (xlast(u) == 51 ? (k <= 3 ? int(u[k]) : (k <= 8 ? 48 : int(u[k-5]))) : (xlast(u) == 52 ? (k <= 4 ? int(u[k]) : (k <= 9 ? 48 : int(u[5]))) : (k <= 5 ? int(u[k]) : (k <= 9 ? 48 : xlast(u))))))
+
+//@ func convertUPCEtoUPCA(upce string) (r string)
+//@   property C10 C03
+//@   requires len(upce) >= 7
+//@   ensures len(r) == (len(upce) >= 8 ? 12 : 11)
+//@   ensures forall k int :: 0 <= k && k < 11 ==> int(r[k]) == xp(upce, k)
+//@   ensures len(upce) >= 8 ==> r[11] == upce[7]
+//@   modifies nothing
+
+// ck11(u): check digit of the UPC-A number that the UPC-E string u expands to
+//@ spec func xd(u string, k int) int = xp(u, k) - 48
+//@ spec func ck11(u string) int = (1000 - (3 * (xd(u, 0) + xd(u, 2) + xd(u, 4) + xd(u, 6) + xd(u, 8) + xd(u, 10)) + (xd(u, 1) + xd(u, 3) + xd(u, 5) + xd(u, 7) + xd(u, 9)))) % 10
+
+// the UPC-E writer must put the check digit of the *expanded* UPC-A number into the symbol, and refuse a supplied
+// digit that differs from it (checked where the canonical 8-digit contents are complete)
+//@ func (upcEEncoder) encodeWithHints(contents string, hints map[gozxing.EncodeHintType]interface{}) (r []bool, e error)
+//@   property C10 C03
+//@   opt fuel=7
+//@   globals upce_NUMSYS_AND_CHECK_DIGIT_PATTERNS, UPCEANReader_L_AND_G_PATTERNS
+//@   assert call(onedWriter_checkNumeric, 0): len(contents) == 8 && (allDigits(contents) ==> dig(contents, 7) == ck11(contents))
+
+//@ func onedWriter_checkNumeric(contents string) (e error)
+//@   property C10 C03 C12
+//@   ensures (e == nil) == allDigits(contents)
+//@   modifies nothing
+//@   loop 0: invariant 0 <= rangepos && rangepos <= len(contents)
+//@   loop 0: invariant forall k int :: 0 <= k && k < rangepos ==> isDigitAt(contents, k)
+//@   loop 0: decreases len(contents) - rangepos
